@@ -266,7 +266,11 @@ func c04Prop(rt *rapid.T, rec *ev.Recorder) {
 		B := twinCompare(rt, rec, k, A, survivors, buggy, orphanHashes, fmt.Sprintf("after Reorg(%d) #%d", pt, r+1))
 		// new fork
 		nCont := rapid.IntRange(0, 5).Draw(rt, "nCont")
-		cont := genHistory(rt, k, survivors, nCont, opts)
+		contOpts := opts
+		for _, db := range dropped {
+			contOpts.reuse = append(contOpts.reuse, db.Evs...)
+		}
+		cont := genHistory(rt, k, survivors, nCont, contOpts)
 		for _, b := range cont {
 			if err := A.process(b); err != nil {
 				closeTwin(B)
